@@ -83,9 +83,16 @@ def _always_returns(stmts: List[ast.stmt]) -> bool:
 def _classify(h: Helper):
     n = h.node
     a = n.args
-    if a.kwarg or a.posonlyargs:
+    if a.posonlyargs:
         h.reason = "star/positional-only parameters"
         return
+    if a.kwarg:
+        # **kwargs is supported when it is only ever passed on as `f(..., **kwargs)`
+        kw = a.kwarg.arg
+        inside = {id(k.value) for c in ast.walk(n) if isinstance(c, ast.Call) for k in c.keywords if k.arg is None and isinstance(k.value, ast.Name) and k.value.id == kw}
+        if any(isinstance(x, ast.Name) and x.id == kw and id(x) not in inside for x in ast.walk(n)):
+            h.reason = "keyword-star parameter used other than as f(**kwargs)"
+            return
     if a.vararg:
         # *args is supported when it is only ever passed on as `f(..., *args)`
         va = a.vararg.arg
@@ -218,6 +225,33 @@ class _SplatArgs(ast.NodeTransformer):
         return node
 
 
+class _SplatKwargs(ast.NodeTransformer):
+    """`f(x, **kwargs)` inside a helper whose keywords were given explicitly at the call: spell them out."""
+    def __init__(self, name: str, kws: List[ast.keyword]):
+        self.name, self.kws = name, kws
+
+    def visit_Call(self, node: ast.Call):
+        self.generic_visit(node)
+        new = []
+        for k in node.keywords:
+            if k.arg is None and isinstance(k.value, ast.Name) and k.value.id == self.name:
+                new += [ast.keyword(arg=x.arg, value=copy.deepcopy(x.value)) for x in self.kws]
+            else:
+                new.append(k)
+        node.keywords = new
+        return node
+
+
+class _GetattrLiteral(ast.NodeTransformer):
+    """getattr(x, "name") with a literal identifier is the attribute x.name."""
+    def visit_Call(self, node: ast.Call):
+        self.generic_visit(node)
+        if isinstance(node.func, ast.Name) and node.func.id == "getattr" and len(node.args) == 2 and not node.keywords \
+                and isinstance(node.args[1], ast.Constant) and isinstance(node.args[1].value, str) and node.args[1].value.isidentifier():
+            return ast.copy_location(ast.Attribute(value=node.args[0], attr=node.args[1].value, ctx=ast.Load()), node)
+        return node
+
+
 class Inliner:
     def __init__(self, helpers: Dict[str, Helper], by_name: Dict[str, List[Helper]]):
         self.helpers = helpers
@@ -310,7 +344,7 @@ class Inliner:
             if d is not None:
                 defaults[a.arg] = d
         bound: Dict[str, ast.AST] = {}
-        if any(isinstance(a, ast.Starred) for a in call.args) or any(k.arg is None for k in call.keywords) or hn.args.vararg:
+        if any(isinstance(a, ast.Starred) for a in call.args) or any(k.arg is None for k in call.keywords) or hn.args.vararg or hn.args.kwarg:
             return None
         if h.kind in ("method", "classmethod") and h.cls is not None:
             if recv is None:
@@ -462,9 +496,16 @@ class Inliner:
             extra = args[len(pos):]
         for p, a in zip(pos, args):
             bound[p] = a
+        kwa = hn.args.kwarg.arg if hn.args.kwarg else None
+        extra_kw: List[ast.keyword] = []
         for k in call.keywords:
-            if k.arg not in params or k.arg in bound:
+            if k.arg in bound:
                 return None
+            if k.arg not in params:
+                if kwa is None:
+                    return None
+                extra_kw.append(k)
+                continue
             bound[k.arg] = k.value
         for p in params:
             if p not in bound:
@@ -473,6 +514,13 @@ class Inliner:
                 else:
                     return None
         body = copy.deepcopy(_strip_doc(hn.body))
+        if kwa is not None:
+            if not all(_simple(k.value) for k in extra_kw):
+                self.skipped.append((qual, h.qual, "non-trivial expressions passed through **kwargs"))
+                return None
+            if _names_in(ast.Tuple(elts=[k.value for k in extra_kw], ctx=ast.Load())) & _stored_names(body):
+                return None
+            body = [_SplatKwargs(kwa, extra_kw).visit(b) for b in body]
         if va is not None:
             if not all(_simple(x) for x in extra):
                 self.skipped.append((qual, h.qual, "non-trivial expressions passed through *args"))
@@ -505,6 +553,7 @@ class Inliner:
         # names substituted for parameters must not be captured by the helper's (renamed) locals
         rn = _Rename(rename, subst)
         body = [rn.visit(b) for b in body]
+        body = [_GetattrLiteral().visit(b) for b in body]
         # returns
         direct = isinstance(st, ast.Assign) and st.value is call
         n_ret = sum(1 for b in body for x in ast.walk(b) if isinstance(x, ast.Return))
